@@ -177,7 +177,7 @@ theorem preBody_started (P : Program) (F : Flags) (n : Nat) (tr : List Label) (c
       intro hh; rcases afterDefer_phase { x with holds := true } with h1 | h1 <;> rw [h1] at hh <;> cases hh
     | cmdEndDefer j r cmd hp hd hs =>
       intro hh; rcases afterDefer_phase x with h1 | h1 <;> rw [h1] at hh <;> cases hh
-    | _ => simp_all [preBodyP, Act.stop]
+    | _ => simp_all [preBodyP, Act.stop, Act.stopDeps]
 
 /-- splitting an accepted trace at an event -/
 theorem replay_split (P : Program) (F : Flags) (c0 c : Config) (tr1 tr2 : List Label) (l : Label)
